@@ -339,6 +339,7 @@ Proof.
   all: try (intros X; exfalso; destruct (I3 X) as [Y|Y]; congruence).
   all: try (intros X; exfalso; congruence).
   all: try (intros _; exfalso; destruct (I3 eq_refl) as [Y|Y]; discriminate Y).
+  all: try (intros X; exfalso; specialize (I2 X); discriminate I2).
   all: try (intros [X|X]; apply after_launch_cases in X as [[X _]|X]; discriminate X).
   all: try (intros X; exfalso; apply after_launch_cases in X as [[X _]|X]; discriminate X).
   all: try (intros [X|X]; exfalso; congruence).
